@@ -37,11 +37,15 @@ def cross_history_tags(rep, prop, observations):
             meta = ()
             rtype = None
         by_tag.setdefault((label, tag), set()).add((state, meta, rtype))
-        by_state.setdefault((label, state, meta, rtype), set()).add(tag)
+        if any(str(nm).startswith("gen:") for nm, _h in state):
+            continue  # POST picks random member names: equal abstract states are different contents, nothing to compare
+        # _c is "*" where every collection keeps its metadata in the tree (contents alone decide the tag); with metadata in
+        # .git/config only observations of the same collection are comparable (MKCALENDAR-made ones do carry a metadata file)
+        by_state.setdefault((label, _c, state, meta, rtype), set()).add(tag)
     for (label, tag), sts in by_tag.items():
         if len(sts) > 1:
             rep.violation("%s|%s|equal-tags-different-contents" % (prop, label), "one collection tag was observed for %d different collection states" % len(sts), {"tag": tag, "states": sorted(sts, key=repr)[:3]})
-    for (label, state, meta, rtype), tags in by_state.items():
+    for (label, _c, state, meta, rtype), tags in by_state.items():
         if len(tags) > 1:
             rep.violation("%s|%s|equal-contents-different-tags" % (prop, label), "equal collection contents were observed with %d different tags (git tags are content-derived)" % len(tags), {"state": state, "meta": meta, "tags": sorted(tags)})
     return len(by_tag)
